@@ -193,6 +193,14 @@ func (env *Env) eval(x Expr) Val {
 			}
 			return Val{T: sx("-", v.T), Ty: tInt}
 		case "*":
+			// "*x" on a local that go/ssa keeps as a plain value: contracts write "*x" for a local that lives in a cell
+			// (captured by a closure, address taken); when a refactoring removes the capture the same source variable
+			// is a register, and Go's typing leaves no other reading of "*x" for a non-pointer x
+			if _, isId := n.X.(*EIdent); isId && v.Loc == nil && v.Ty != nil {
+				if _, isPtr := v.Ty.Underlying().(*types.Pointer); !isPtr {
+					return v
+				}
+			}
 			return env.deref(v)
 		}
 	case *EField:
